@@ -201,8 +201,8 @@ def find_func(tu, name, rec_prefix=None, pick=None):
             continue
         rec = tu.parent_rec.get(fid)
         rn = tu.rec_name.get(rec['id'], '') if rec else ''
-        if rec_prefix is not None and not rn.startswith(rec_prefix):
-            continue
+        if rec_prefix is not None and not (rn.startswith(rec_prefix) and not re.match(r'[A-Za-z0-9_]', rn[len(rec_prefix):len(rec_prefix) + 1] or ' ')):
+            continue    # prefix up to a name boundary: 'rlbox::vsbx' is not a prefix of 'rlbox::vsbx_f3'
         if pick is not None and not pick(fn, rn):
             continue
         out.append(fn)
